@@ -105,15 +105,15 @@ AxisFactor(t, x) ==
   ELSE IF x = t[2] THEN <<1, 1>>
   ELSE IF x < t[2] THEN <<x - t[1], t[2] - t[1]>>
   ELSE <<t[3] - x, t[3] - t[2]>>
-(* the non-trivial factors of a region at a location; <<"zero">> if some factor is 0 *)
+(* the non-trivial factors of a region at a location; << <<0, 1>> >> if some factor is 0 *)
 RECURSIVE RegFactorsFrom(_, _, _, _)
 RegFactorsFrom(reg, x, a, acc) ==
   IF a > Len(reg) THEN acc
   ELSE LET f == AxisFactor(reg[a], x[a]) IN
-       IF f[1] = 0 THEN <<"zero">>
+       IF f[1] = 0 THEN << <<0, 1>> >>
        ELSE LET acc2 == IF f[1] = f[2] THEN acc ELSE Append(acc, f) IN RegFactorsFrom(reg, x, a + 1, acc2)
 RegFactors(reg, x) == RegFactorsFrom(reg, x, 1, <<>>)
-IsZeroF(fs) == Len(fs) = 1 /\ fs[1] = "zero"
+IsZeroF(fs) == Len(fs) = 1 /\ fs[1][1] = 0
 
 (* v * n/d rounded towards zero, exactly, without leaving 31 bits (n <= d <= 2^15 ... 2^16) *)
 FxMulOk(f) == f[2] <= 46340 \/ MulFits(f[2], f[1])
@@ -241,7 +241,6 @@ AtLocFont(r, O, I, axesO, mapsO, axesI, mapsI, lims, errO, errI, u) ==
       u2 == TLCEval([j \in 1..Len(kept) |-> u[kept[j]]])
       dO == LocData(O, axesO, mapsO, u, errO)
       dI == LocData(I, axesI, mapsI, u2, errI)
-      W == FX \div 2 + (IF r.opt = 1 THEN FX \div 2 ELSE 0)
       item(i) ==
         LET a == O.items[i]
             b == I.items[i]
@@ -249,7 +248,7 @@ AtLocFont(r, O, I, axesO, mapsO, axesI, mapsI, lims, errO, errI, u) ==
             vi == ItemValFrom(b.v, dI.fs, 1, b.b, 0)
             diff == IAbsV(vi[1] - vo[1])
             allowed == b.nb * (FX \div 2)
-                       + RoundTermFrom(b.v, dI.fs, b.w * W, 1, 0)
+                       + RoundTermFrom(b.v, dI.fs, b.w * (FX \div 2) * (1 + b.o), 1, 0)
                        + vo[2] + vi[2] + a.inf + b.inf
                        + CoordSlackFrom(b.v, dI.lip, 2, 1, 1, 0)
                        + CoordSlackFrom(a.v, dO.lip, 0, 0, 1, 0)
